@@ -106,9 +106,9 @@ def xcheck_run(tag):
         return stats, problems
     solvers = []
     if shutil.which('z3'):
-        solvers.append(('z3-binary', ['z3', '-smt2', '-T:60']))
+        solvers.append(('z3-binary', ['z3', '-smt2', '-T:30']))
     if shutil.which('cvc5'):
-        solvers.append(('cvc5', ['cvc5', '--lang', 'smt2', '--tlimit=60000']))
+        solvers.append(('cvc5', ['cvc5', '--lang', 'smt2', '--tlimit=30000']))
     d = tempfile.mkdtemp(prefix='llsym-xc-')
     try:
         for i, (text, res) in enumerate(XC['items']):
@@ -118,7 +118,7 @@ def xcheck_run(tag):
             for name, cmd in solvers:
                 st = stats.setdefault(name, dict(agree=0, undecided=0, disagree=0))
                 try:
-                    r = subprocess.run(cmd + [pth], capture_output=True, text=True, timeout=90)
+                    r = subprocess.run(cmd + [pth], capture_output=True, text=True, timeout=45)
                     ans = (r.stdout.strip().split('\n') or [''])[0].strip()
                 except subprocess.TimeoutExpired:
                     ans = 'timeout'
@@ -167,7 +167,7 @@ class Tally:
             return None
         d['queries'] += 1
         ex.solver.push()
-        ex.solver.add(z3.Not(f) if not isinstance(f, bool) else z3.BoolVal(not f))
+        ex.solver.add(ex.tr(z3.Not(f)) if not isinstance(f, bool) else ex.tr(not f))
         t0 = time.time()
         r = ex.solver.check()
         ex.stats.solver_s += time.time() - t0
@@ -202,7 +202,7 @@ class Tally:
             return {}
         conj = z3.And(*[f if not isinstance(f, bool) else z3.BoolVal(f) for _, f in live])
         ex.solver.push()
-        ex.solver.add(z3.Not(conj))
+        ex.solver.add(ex.tr(z3.Not(conj)))
         t0 = time.time()
         r = ex.solver.check()
         ex.stats.solver_s += time.time() - t0
@@ -243,6 +243,8 @@ def mval(mdl, t):
         return int(t)
     if is_c(t):
         return t
+    if t.ctx != mdl.ctx:
+        t = t.translate(mdl.ctx)   # models live in the solver context
     v = mdl.eval(t, model_completion=True)
     if z3.is_bool(v):
         return 1 if z3.is_true(v) else 0
